@@ -495,6 +495,60 @@ func runC01(c *Checker) {
 			c.decide(instrDominates(st, d), "WIN-1", "receiveLoop|advance before delivery", instrPos(d), "recvSeq is advanced before the packet is delivered",
 				"a packet can be delivered without recvSeq having been advanced: the retransmission of the same packet is accepted again")
 		}
+		// an accepted (acknowledged, recvSeq advanced) data packet IS delivered: from the advance, the
+		// loop head is reached again only through the taken hand-over to Recv - the other cases of the
+		// delivery select leave the function - or on the ping leg (pings carry no data). A packet that
+		// is acknowledged but given up on is never resent by the peer: it is lost.
+		if hd := loopHeadOf(rl); hd != nil && len(deliveries) == 1 {
+			fIsPingF := w.Field("gbn.PacketData.IsPing")
+			d := deliveries[0]
+			cases, _ := w.selectCases(d)
+			sendBody := map[*ssa.BasicBlock]bool{}
+			otherLeaves := true
+			for _, sc := range cases {
+				if sc.IsSend && chanField(sc.Chan) == fRecvChan {
+					if sc.Body != nil {
+						sendBody[sc.Body] = true
+					}
+					continue
+				}
+				if sc.Body == nil || !blockLeaves(sc.Body, 0) {
+					otherLeaves = false
+				}
+			}
+			lost := false
+			seen := map[*ssa.BasicBlock]bool{}
+			var walk func(b *ssa.BasicBlock, from int)
+			walk = func(b *ssa.BasicBlock, from int) {
+				if lost {
+					return
+				}
+				for i := from; i < len(b.Instrs); i++ {
+					if b.Instrs[i] == ssa.Instruction(d) {
+						return // the delivery select: judged by otherLeaves
+					}
+				}
+				for _, sct := range b.Succs {
+					if seen[sct] || !edgeFeasible(b, sct) {
+						continue
+					}
+					// the ping leg legitimately skips the delivery
+					if f, ok := edgeFact(b, sct); ok && f.Val && fIsPingF != nil && isLoadOfField(f.Cond, fIsPingF) {
+						continue
+					}
+					if sct == hd {
+						lost = true
+						return
+					}
+					seen[sct] = true
+					walk(sct, 0)
+				}
+			}
+			walk(st.Block(), instrIndex(st)+1)
+			c.decide(!lost && otherLeaves, "WIN-1", "receiveLoop|an accepted data packet is always delivered", instrPos(d),
+				"after the advance the next iteration is reached only through the hand-over to Recv (or on the ping leg); the other cases of the delivery select return",
+				fmt.Sprintf("an acknowledged data packet can be dropped (next iteration reachable without the hand-over: %v; every other case of the delivery select leaves the loop: %v): the peer never resends it", lost, otherLeaves))
+		}
 		// at most once per iteration: no path from the store back to itself without passing the loop head
 		head := loopHeadOf(rl)
 		if head != nil {
